@@ -21,7 +21,8 @@ Forms ==
     <<"0", "1", "=", "i">>,                                                             \* zero-led numeric name
     <<"q", "=", "j", "=", "k">>,                                                        \* '=' inside the value
     <<"1", "0", "0", "1", "=", "m">>,                                                   \* numeric name > 1000
-    <<"r", "=", "n", "NL", "o">>, <<"4", "=", "p", "NL", "q">>, <<"s", "NL", "t">> }    \* a line break inside a value
+    <<"r", "=", "n", "NL", "o">>, <<"4", "=", "p", "NL", "q">>, <<"s", "NL", "t">>,     \* a line break inside a value
+    <<"0", "=", "a0">>, <<"-", "1", "=", "a1">>, <<"1", ".", "5", "=", "a2">> }         \* names a number parser accepts but that are no positive integers: strings
 
 Lists == UNION { [1..n -> Forms] : n \in 0..MaxLen }
 
